@@ -489,7 +489,8 @@ impl<'a> G<'a> {
             self.var_counter += 1;
             // declared with exactly the argument type (always compatible), sometimes stricter
             let decl = if !ty.is_nonnull() && rng.chance(1, 4) { Ty::NonNull(Box::new(ty.clone())) } else { ty.clone() };
-            let default = if !decl.is_nonnull() && rng.chance(1, 4) { Some(literal_for(rng, &decl, &self.s.types, &mut vec![], false)) } else { None };
+            // defaults are legal on nullable and on non-null variables alike
+            let default = if rng.chance(1, 4) { Some(literal_for(rng, &decl, &self.s.types, &mut vec![], false)) } else { None };
             self.vars.push(VarDef { name: n.clone(), ty: decl.render(), default, dirs: vec![] });
             return format!("${n}");
         }
@@ -534,7 +535,18 @@ impl<'a> G<'a> {
                 let name = format!("F{}", self.frag_counter);
                 self.pending.push((name.clone(), target));
                 let dirs = self.cond_dirs(rng, "FRAGMENT_SPREAD");
-                sels.push(Sel::Spread { name, dirs });
+                sels.push(Sel::Spread { name: name.clone(), dirs });
+                // the same fragment spread a second time in the same scope (directly or inside an
+                // inline fragment), usually under different conditions
+                if rng.chance(1, 4) {
+                    let dirs2 = self.cond_dirs(rng, "FRAGMENT_SPREAD");
+                    if rng.chance(1, 2) {
+                        sels.push(Sel::Spread { name, dirs: dirs2 });
+                    } else {
+                        let idirs = self.cond_dirs(rng, "INLINE_FRAGMENT");
+                        sels.push(Sel::Inline { cond: None, dirs: idirs, sub: vec![Sel::Spread { name, dirs: dirs2 }] });
+                    }
+                }
             } else if !fields.is_empty() {
                 let leafs: Vec<&Field> = fields.iter().filter(|f| self.s.is_leaf(f.ty.named())).collect();
                 let f = if deep && !leafs.is_empty() { (*rng.pick(&leafs)).clone() } else { rng.pick(&fields).clone() };
